@@ -92,10 +92,10 @@ class Harness:
         try:
             if api == "recv_data_frame":
                 o, f = ws.recv_data_frame(cf)
-                return ("ret", (o, bytes(f.data), f.fin))
+                return ("ret", (o, env.B(f.data), f.fin))
             if api == "recv_data":
                 o, data = ws.recv_data(cf)
-                return ("ret", (o, bytes(data)))
+                return ("ret", (o, env.B(data)))
             return ("ret", ws.recv())
         except lib.websocket.WebSocketTimeoutException:
             return ("timeout",)
